@@ -29,6 +29,9 @@ def sources(rng, spec, p, workdir, n):
     yield "parse_path", call(p.parse_path, path)
     yield "parse_args_cfg", call(p.parse_args, ["--cfg", path])
     yield "defaults_only", call(p.parse_args, [] if not spec.get("sub") else [list(spec["sub"]["choices"])[0]])
+    if not spec.get("sub"):
+        yield "parse_object_nodefaults", call(p.parse_object, copy.deepcopy(obj), defaults=False)
+        yield "parse_string_nodefaults", call(p.parse_string, text, defaults=False)
 
 
 def classify_value_at(C0, steps):
@@ -63,14 +66,15 @@ def check_fixed_point(ctx, spec, p, channel, C, otherdir):
         cm = chdir(otherdir) if where == "other-cwd" else chdir(os.getcwd())
         with cm:
             # 1. validate
-            o = call(p.validate, copy.deepcopy(C0))
+            o = call(p.validate, copy.deepcopy(C0)) if not channel.endswith("nodefaults") else call(lambda: None)
             ctx.count("mon.validate")
             if not o.accepted:
                 loc = c01.localise_failure("dump.json", spec, C0)
                 ctx.violation("fixedpoint", f"validate-rejects-own-result/{channel_family(channel)}/{o.exc_type}", dict(channel=channel, where=where, spec=P.spec_summary(spec), config=short(C0, 800), outcome=o.brief()))
                 return
             # 2. parse_object
-            o = call(p.parse_object, copy.deepcopy(C0))
+            kw = {"defaults": False} if channel.endswith("nodefaults") else {}
+            o = call(p.parse_object, copy.deepcopy(C0), **kw)
             ctx.count("mon.reparse_object")
             if not o.accepted:
                 ctx.violation("fixedpoint", f"parse_object-rejects-own-result/{channel_family(channel)}/{o.exc_type}", dict(channel=channel, where=where, spec=P.spec_summary(spec), config=short(C0, 800), outcome=o.brief()))
@@ -107,6 +111,8 @@ def check_fixed_point(ctx, spec, p, channel, C, otherdir):
                 ctx.violation("fixedpoint", sig, dict(channel=channel, where=where, at=steps_str(steps), why=reason, hint=t.skel if t else None, config=short(C0, 800), reparsed=short(o.value, 800)))
                 return
     # 3. dump . parse . dump
+    if channel.endswith("nodefaults"):
+        return  # a sparse configuration is only a fixed point of parsing without defaults (checked above)
     for fmt in ("yaml", "json") if spec.get("mode") == "yaml" else ("json",):
         o1 = call(p.dump, copy.deepcopy(C0), format=fmt, skip_none=False)
         if not o1.accepted:
@@ -114,7 +120,14 @@ def check_fixed_point(ctx, spec, p, channel, C, otherdir):
             return
         ob = call(p.parse_string, o1.value)
         if not ob.accepted:
-            ctx.observe("reparse-rejected (C01's business)", ob.brief())
+            loc = c01.localise_failure("dump." + fmt, spec, C0)
+            if loc:
+                key, t, v, kind, detail = loc
+                cls = "+".join(c for c in c01.string_classes(v) if not c.startswith("key:")) or "no-hostile-string"
+                sig = f"dump-parse-dump/reparse-rejected/{c01.top_kinds(t)}/{cls}"
+            else:
+                sig = f"dump-parse-dump/reparse-rejected/not-localised/{ob.exc_type}"
+            ctx.violation("fixedpoint", sig, dict(channel=channel, fmt=fmt, first=short(o1.value, 800), outcome=ob.brief()))
             return
         o2 = call(p.dump, ob.value, format=fmt, skip_none=False)
         ctx.count(f"mon.dump_parse_dump.{fmt}")
@@ -133,8 +146,10 @@ def check_fixed_point(ctx, spec, p, channel, C, otherdir):
             if sorted(l1) == sorted(l2) and has_set:
                 cause = "set-order"
             if dd:
-                ctx.count("dump_parse_dump_differs_because_roundtrip_differs(C01)")
-                continue
+                steps, reason = dd
+                cls = "+".join(c for c in c01.string_classes(C0) if not c.startswith("key:")) or "no-hostile-string"
+                ctx.violation("fixedpoint", f"dump-parse-dump/config-differs/{diff_class((steps_str(steps), reason))}/{cls if 'unicode-break' in cls else 'any'}", dict(channel=channel, fmt=fmt, at=steps_str(steps), why=reason, first=short(o1.value, 600), second=short(o2.value, 600)))
+                return
             ctx.violation("fixedpoint", f"dump-parse-dump-not-identical/{fmt}/{cause}", dict(channel=channel, first=short(o1.value, 800), second=short(o2.value, 800), first_diff=diff))
             return
 
